@@ -258,10 +258,12 @@ func (self *Fork) vdrKillSome(partial *PartialVdrKillReport, done bool) (*VDRKil
 			}
 			self.deletePartialKill()
 		}
+		// If done, the final report was just written, so this fork's
+		// accounting belongs in the totals of whoever asked.
 		if partial == nil {
-			return nil, false
+			return nil, done
 		} else {
-			return &partial.VDRKillReport, false
+			return &partial.VDRKillReport, done
 		}
 	}
 	if partial == nil {
